@@ -64,9 +64,22 @@ var hookMu sync.Mutex
 // Start serves s on c and returns once the service is started (OnServe) or
 // Serve returned. extraHook, if non-nil, sees every hook point as well.
 func Start(s *res.Service, c *fakeconn.Conn, extraHook func(point string, arg interface{})) (*Runner, error) {
+	return start(s, c, extraHook, false)
+}
+
+// StartNoLog is Start for a service configured without logger (SetLogger(nil)).
+func StartNoLog(s *res.Service, c *fakeconn.Conn, extraHook func(point string, arg interface{})) (*Runner, error) {
+	return start(s, c, extraHook, true)
+}
+
+func start(s *res.Service, c *fakeconn.Conn, extraHook func(point string, arg interface{}), noLog bool) (*Runner, error) {
 	r := &Runner{S: s, C: c, Log: &Logger{}, served: make(chan struct{}), exited: make(chan error, 1), done: map[string]int{}, extra: extraHook}
 	r.cond = sync.NewCond(&r.mu)
-	s.SetLogger(r.Log)
+	if noLog {
+		s.SetLogger(nil)
+	} else {
+		s.SetLogger(r.Log)
+	}
 	s.SetOnServe(func(*res.Service) { close(r.served) })
 	res.VerifHook = r.hook
 	go func() { r.exited <- s.Serve(c) }()
